@@ -44,6 +44,7 @@ class World:
         kw.setdefault('lat_kind', self.lat_kind)
         kw.setdefault('lat', self.lat)
         kw.setdefault('list_order', self.list_order)
+        kw.setdefault('list_page', getattr(self, 'list_page', None))
         kw.setdefault('proc', f'p{self.nproc}')
         return store.Profile(**kw)
 
